@@ -7,6 +7,7 @@ package main
 
 import (
 	"context"
+	"flag"
 	"fmt"
 	"io"
 	"log"
@@ -48,6 +49,14 @@ type Case struct {
 	// scenario (vi): race_before, then the SAME Locker is locked again with its Create held in flight
 	// while the parked renewal of the finished tenure reaches the storage
 	Relock bool `json:"relock,omitempty"`
+	// Solo: the case runs in a child process of its own kind (solo cases one after the other), so that the
+	// process-wide timer queue of the timeout package holds nothing but the renewal futures of this scenario
+	Solo bool `json:"solo,omitempty"`
+	// scenario (vii), two holders: another lock "A" (own store, own provider, same lease) is held and then
+	// unlocked while its EndK-th renewal call is in flight (parked on its way to its store); the tenure under
+	// study ("B", End = unlock after HoldU) is acquired "after" that renewal was fired, shortly "before" it is
+	// due, or "first" (before A is locked at all). B's lease must stay in force, A's Unlock must not panic.
+	Two string `json:"two,omitempty"`
 	Jit   uint64 `json:"jit"`
 }
 
@@ -136,6 +145,42 @@ func runScenario(cs Case) (o *outcome) {
 		o.canaryMax = canary.maxLate(start, time.Now())
 	}()
 
+	// (vii) the other lock
+	var stA *parkStore
+	var lA interface {
+		LockWithCtx(context.Context) error
+		Unlock()
+	}
+	waitParkedA := func() {
+		select {
+		case <-stA.parked:
+		case <-time.After(time.Duration(cs.EndK+6)*ttl + 2*time.Second):
+			o.contFail = true // the renewal of A never came: nothing to race with (disturbed run)
+		}
+	}
+	if cs.Two != "" {
+		stA = &parkStore{Storage: inmem.New(), parkK: int32(cs.EndK), parked: make(chan struct{}, 1), release: make(chan struct{})}
+		defer stA.letGo()
+		pA := dist.NewKvsLockProvider(stA, "/verifA/")
+		if !dist.VerifSetLeaseTTL(pA, ttl) {
+			o.fatal = "VerifSetLeaseTTL: not a kvs lock provider"
+			return
+		}
+		lA = pA.NewLocker("LA")
+		if cs.Two != "first" {
+			if lA.LockWithCtx(ctx) != nil {
+				o.fatal = "lock A could not be acquired on an empty store"
+				return
+			}
+			acquiredA := time.Now()
+			if cs.Two == "after" {
+				waitParkedA()
+			} else {
+				sleepUntil(acquiredA.Add(time.Duration(cs.EndK)*ttl/2 - ttl/6))
+			}
+		}
+	}
+
 	okAcq := false
 	if cs.Acq == "lock" {
 		okAcq = holder.LockWithCtx(ctx) == nil
@@ -147,6 +192,20 @@ func runScenario(cs Case) (o *outcome) {
 		return
 	}
 	acquiredAt := time.Now()
+	if cs.Two != "" {
+		if cs.Two == "first" {
+			if lA.LockWithCtx(ctx) != nil {
+				o.fatal = "lock A could not be acquired on an empty store"
+				return
+			}
+		}
+		if cs.Two != "after" {
+			waitParkedA()
+		}
+		// A is unlocked while its renewal is in flight (a panic in here ends the run as fatal)
+		lA.Unlock()
+		stA.letGo()
+	}
 
 	// after the death of the holder only the parked contender touches the store until it has
 	// acquired (a Get or a Create of somebody else would wake it as a side effect of the lazy
@@ -620,6 +679,9 @@ func estimate(cs Case) time.Duration {
 	if strings.HasPrefix(cs.End, "race") {
 		d = time.Duration(cs.EndK)*ttl/2 + time.Duration(cs.ContU)*ttl/24
 	}
+	if cs.Two != "" {
+		d += time.Duration(cs.EndK) * ttl / 2
+	}
 	return d + 4*ttl
 }
 
@@ -753,12 +815,22 @@ func generate(seed uint64, thorough bool) []Case {
 			}
 			// (vi) like (iv) "before", then the same Locker is locked again, its Create in flight
 			add(Case{TTLms: ttl, Acq: acq(), End: "race_before", EndK: r.Range(1, 2), Relock: true})
+			// solo stream (a process whose timer queue holds only this scenario's futures): (iv) again, and
+			// (vii) two holders: lock A unlocked with its renewal in flight while lock B stays held
+			if !big && (thorough || round < 2) {
+				add(Case{Solo: true, TTLms: ttl, Acq: acq(), End: prng.Pick(r, []string{"race_before", "race_after"}), EndK: r.Range(1, 2)})
+				add(Case{Solo: true, TTLms: ttl, Acq: acq(), End: "unlock", HoldU: r.Range(72, 110), Two: "after", EndK: 1})
+				add(Case{Solo: true, TTLms: ttl, Acq: acq(), End: "unlock", HoldU: r.Range(72, 110), Two: "after", EndK: 2})
+				add(Case{Solo: true, TTLms: ttl, Acq: acq(), End: "unlock", HoldU: r.Range(72, 110), Two: prng.Pick(r, []string{"before", "first"}), EndK: r.Range(1, 2)})
+			}
 		}
 	}
 	return cases
 }
 
 func main() {
+	soloIn := flag.String("solo-in", "", "internal: run these solo cases one after the other")
+	soloOutF := flag.String("solo-out", "", "internal: write their reports here")
 	fl := hx.ParseFlags()
 	log.SetOutput(io.Discard)
 	logging.SetLevel(logging.ERROR)
@@ -771,16 +843,27 @@ func main() {
 	} else {
 		cases = generate(fl.Seed, fl.Tier == "thorough")
 	}
-	startCanary(40 * time.Minute)
+	if *soloIn != "" {
+		soloChild(*soloIn, *soloOutF)
+		return
+	}
+	startCanary(40*time.Minute, true)
+	results := make([]*report, len(cases))
+	tl := &tally{maxDl: map[int]int64{}, maxEp: map[int]int64{}}
+	soloDone := make(chan struct{})
+	go func() {
+		defer close(soloDone)
+		runSoloChildren(fl, cases, results, tl)
+	}()
 	// longest first, a bounded number of scenarios at a time (each has its own store)
-	order := make([]int, len(cases))
-	for i := range order {
-		order[i] = i
+	var order []int
+	for i := range cases {
+		if !cases[i].Solo {
+			order = append(order, i)
+		}
 	}
 	sort.SliceStable(order, func(a, b int) bool { return estimate(cases[order[a]]) > estimate(cases[order[b]]) })
 	slots := 48
-	results := make([]*outcome, len(cases))
-	tl := &tally{maxDl: map[int]int64{}, maxEp: map[int]int64{}}
 	var wg sync.WaitGroup
 	sem := make(chan struct{}, slots)
 	for _, i := range order {
@@ -790,41 +873,48 @@ func main() {
 		go func() {
 			defer wg.Done()
 			defer func() { <-sem }()
-			results[i] = runWithPolicy(cases[i], tl)
+			results[i] = mkReport(runWithPolicy(cases[i], tl))
 		}()
 	}
 	wg.Wait()
+	<-soloDone
 	stopCanary()
 	for i, o := range results {
 		cs := cases[i]
-		if o == nil {
+		if o == nil || o.Nil {
 			s.Count("abandoned-noisy")
 			continue
 		}
-		if o.fatal != "" {
+		if o.Fatal != "" {
 			s.Add(cs, fmt.Sprintf("mkCase %d%%N 1 false []", cs.ID), false)
-			s.DirectViolation(cs.ID, o.fatal, nil)
+			s.DirectViolation(cs.ID, o.Fatal, nil)
 			continue
 		}
-		for _, odd := range o.hardOdd {
-			s.DirectViolation(cs.ID, "storage call outside any operation: "+odd, map[string]any{"events_around_the_end": aroundEnd(o)})
+		for _, odd := range o.HardOdd {
+			s.DirectViolation(cs.ID, "storage call outside any operation: "+odd, map[string]any{"events_around_the_end": o.AroundEnd})
 		}
-		for _, odd := range o.oddities {
+		for _, odd := range o.Oddities {
 			s.DirectViolation(cs.ID, "unexpected storage interaction: "+odd, nil)
 		}
-		s.Add(cs, coqCase(o), o.renewals >= 3)
-		if o.failCode != 0 {
+		s.Add(cs, o.Coq, o.Renewals >= 3)
+		if o.FailCode != 0 {
 			what := "the recorded trace is not a trace of the model"
-			if o.failCode == 4 {
+			if o.FailCode == 4 {
 				what = "the lease of the live holder was not in force"
-			} else if o.failCode == 5 {
+			} else if o.FailCode == 5 {
 				what = "the lock of a dead holder was not handed over"
-			} else if o.failCode == 6 {
+			} else if o.FailCode == 6 {
 				what = "renewal of a finished tenure does not die out after Unlock"
 			}
-			s.DirectViolation(cs.ID, what, map[string]any{"reason": o.failText, "measured_lateness_ms": float64(o.dl) / 1e6,
-				"measured_latency_ms": float64(o.ep) / 1e6, "lost_in_a_row": o.k, "premise_of_lease_kept_met": o.premise,
-				"canary_max_lateness_ms": float64(o.canaryMax) / 1e6, "events_around": around(o)})
+			s.DirectViolation(cs.ID, what, map[string]any{"reason": o.FailText, "measured_lateness_ms": float64(o.Dl) / 1e6,
+				"measured_latency_ms": float64(o.Ep) / 1e6, "lost_in_a_row": o.K, "premise_of_lease_kept_met": o.Premise,
+				"canary_max_lateness_ms": float64(o.CanaryNs) / 1e6, "events_around": o.Around})
+		}
+		if cs.Solo {
+			s.Count("solo-process")
+		}
+		if cs.Two != "" {
+			s.Count("two-holders:" + cs.Two)
 		}
 		s.Count(fmt.Sprintf("ttl:%dms", cs.TTLms))
 		s.Count("end:" + cs.End)
@@ -862,20 +952,20 @@ func main() {
 		default:
 			s.Count("hold:<6 periods")
 		}
-		if o.lapse {
+		if o.Lapse {
 			s.Count("lease-lapsed-while-held")
 		}
-		if !o.premise {
+		if !o.Premise {
 			s.Count("premise-exceeded-by-measured-timing")
 		}
-		tl.renewals += o.renewals
-		tl.blackholed += o.blackholed
-		tl.events += len(o.evs)
-		if o.dl > tl.maxDl[cs.TTLms] {
-			tl.maxDl[cs.TTLms] = o.dl
+		tl.renewals += o.Renewals
+		tl.blackholed += o.Blackholed
+		tl.events += o.Events
+		if o.Dl > tl.maxDl[cs.TTLms] {
+			tl.maxDl[cs.TTLms] = o.Dl
 		}
-		if o.ep > tl.maxEp[cs.TTLms] {
-			tl.maxEp[cs.TTLms] = o.ep
+		if o.Ep > tl.maxEp[cs.TTLms] {
+			tl.maxEp[cs.TTLms] = o.Ep
 		}
 	}
 	s.Extra["runs_discarded_and_rerun"] = tl.discarded
